@@ -1,5 +1,6 @@
 import SluProofs.Lemmas.Solve
 import SluProofs.Lemmas.SolveT
+import SluProofs.Lemmas.MyBlas2
 import SluProofs.Props.C02
 import SluProofs.Props.C04
 /-
@@ -173,3 +174,283 @@ example : (let st := luFactor exCx false
     gstrsT id st.piv st.L st.U #[0, 1] #[⟨2, -1⟩, ⟨1, 1⟩]) ≠ #[⟨1, 0⟩, ⟨0, 1⟩] := by decide +kernel
 
 end Slu.LU
+
+/-! ### The library's own dense kernels (SRC/[sdcz]myblas2.c) — what the triangular solves and the
+numeric updates execute when the library is not built with a vendor BLAS
+
+`Slu/Model/MyBlas2.lean` mirrors `[sdcz]lsolve`, `usolve`, `matvec` (every unrolled block, every tail)
+and `[sdcz]snode_bmod`; family `myblas` compares the mirrors with the C routines bit for bit.  The
+theorems below are their exact-arithmetic specification, for EVERY `ncol`, `nrow`, `ldm`, offset, and
+for both unrolling schemes (`cplx = false`: the real files, 8/4/2 resp. 8/4/1 columns; `cplx = true`:
+the complex files, 4/2 resp. 4/1 columns). -/
+namespace Slu.MyBlas2
+open Slu Finset Slu.Kernels
+
+variable {K : Type} [Field K] [Inhabited K]
+
+/-- **C01 (own BLAS: `lsolve`).** For every `ncol` (every residue of every unrolling factor), every
+`ldm` and offsets: the cells `ro .. ro+ncol-1` of the result hold the solution of the UNIT lower
+triangular system `L x = rhs` whose strictly lower part is read from `M` with stride `ldm` — it is
+the dense reference `Slu.Kernels.fwdSub` — and no other cell of `rhs` changes (`M` is not written:
+it is an argument that is only read). -/
+theorem lsolve_spec (cplx : Bool) (ldm ncol : Nat) (M : Array K) (mo : Nat) (rhs : Array K) (ro : Nat)
+    (hb : ro + ncol ≤ rhs.size) :
+    (lsolve cplx ldm ncol M mo rhs ro).size = rhs.size ∧
+    (∀ i, i < ncol → (lsolve cplx ldm ncol M mo rhs ro)[ro + i]! =
+      (fwdSub (fun i j => M[mo + (j * ldm + i)]!) (fun _ => 1) (fun i => rhs[ro + i]!) ncol).getD i 0) ∧
+    (∀ i, i < ncol → (lsolve cplx ldm ncol M mo rhs ro)[ro + i]! +
+      ∑ j ∈ range i, M[mo + (j * ldm + i)]! * (lsolve cplx ldm ncol M mo rhs ro)[ro + j]! = rhs[ro + i]!) ∧
+    (∀ p, (p < ro ∨ ro + ncol ≤ p) → (lsolve cplx ldm ncol M mo rhs ro)[p]! = rhs[p]!) := by
+  have hz : ∀ i, i < ncol →
+      (fwdSub (fun i j => M[mo + (j * ldm + i)]!) (fun _ => 1) (fun i => rhs[ro + i]!) ncol).getD i 0 =
+      rhs[ro + i]! - ∑ j ∈ range i,
+        (fwdSub (fun i j => M[mo + (j * ldm + i)]!) (fun _ => 1) (fun i => rhs[ro + i]!) ncol).getD j 0 * M[mo + (j * ldm + i)]! := by
+    intro i hi
+    rw [fwd_rec _ _ _ ncol i hi, div_one]
+    congr 1
+    exact Finset.sum_congr rfl (fun j _ => mul_comm _ _)
+  obtain ⟨h1, h2, h3⟩ := lsolveG_spec cplx ldm ncol (fun _ i => M[mo + i]!) ro rhs (fun i j => M[mo + (j * ldm + i)]!) _ hb
+    (fun _ _ _ _ _ _ => rfl) hz
+  refine ⟨h1, h2, fun i hi => ?_, h3⟩
+  have hrow := fwdSub_row (fun i j => M[mo + (j * ldm + i)]!) (fun _ => 1) (fun i => rhs[ro + i]!) ncol i hi one_ne_zero
+  unfold lsolve
+  rw [h2 i hi, Finset.sum_congr rfl (fun j hj => by rw [h2 j (by have := mem_range.mp hj; omega)]), add_comm]
+  simpa using hrow
+
+/-- **C01 (own BLAS: `lsolve` inside one array, as `snode_bmod` calls it).** Matrix at offset `mo`
+and right-hand side at offset `ro` of the SAME array; as long as the strictly lower triangle read
+by the routine does not overlap the right-hand side, the result is the same forward substitution
+and EVERY cell outside `ro .. ro+ncol-1` — in particular every entry of the matrix — is unchanged. -/
+theorem lsolveA_spec (cplx : Bool) (ldm ncol : Nat) (a : Array K) (mo ro : Nat) (hb : ro + ncol ≤ a.size)
+    (hdis : ∀ i j, j < i → i < ncol → mo + (j * ldm + i) < ro ∨ ro + ncol ≤ mo + (j * ldm + i)) :
+    (lsolveA cplx ldm ncol a mo ro).size = a.size ∧
+    (∀ i, i < ncol → (lsolveA cplx ldm ncol a mo ro)[ro + i]! =
+      (fwdSub (fun i j => a[mo + (j * ldm + i)]!) (fun _ => 1) (fun i => a[ro + i]!) ncol).getD i 0) ∧
+    (∀ p, (p < ro ∨ ro + ncol ≤ p) → (lsolveA cplx ldm ncol a mo ro)[p]! = a[p]!) := by
+  have hz : ∀ i, i < ncol →
+      (fwdSub (fun i j => a[mo + (j * ldm + i)]!) (fun _ => 1) (fun i => a[ro + i]!) ncol).getD i 0 =
+      a[ro + i]! - ∑ j ∈ range i,
+        (fwdSub (fun i j => a[mo + (j * ldm + i)]!) (fun _ => 1) (fun i => a[ro + i]!) ncol).getD j 0 * a[mo + (j * ldm + i)]! := by
+    intro i hi
+    rw [fwd_rec _ _ _ ncol i hi, div_one]
+    congr 1
+    exact Finset.sum_congr rfl (fun j _ => mul_comm _ _)
+  exact lsolveG_spec cplx ldm ncol (fun s i => s[mo + i]!) ro a (fun i j => a[mo + (j * ldm + i)]!) _ hb
+    (fun s hs i j hji hi => hs.2 _ (hdis i j hji hi)) hz
+
+/-- **C01 (own BLAS: `usolve`).** With a nonzero stored diagonal the result is the solution of the
+upper triangular system `U x = rhs` read from `M` with stride `ldm` (the dense reference
+`Slu.Kernels.bwdSub`), for every `ncol`; no other cell of `rhs` changes. -/
+theorem usolve_spec [Conj K] (ldm ncol : Nat) (M : Array K) (mo : Nat) (rhs : Array K) (ro : Nat)
+    (hb : ro + ncol ≤ rhs.size) (hd : ∀ i, i < ncol → M[mo + (i + i * ldm)]! ≠ 0) :
+    (usolve ldm ncol M mo rhs ro).size = rhs.size ∧
+    (∀ i, i < ncol → (usolve ldm ncol M mo rhs ro)[ro + i]! =
+      (bwdSub (fun i j => M[mo + (i + j * ldm)]!) (fun i => M[mo + (i + i * ldm)]!) (fun i => rhs[ro + i]!) ncol ncol).getD i 0) ∧
+    (∀ i, i < ncol → ∑ j ∈ Ico i ncol, M[mo + (i + j * ldm)]! * (usolve ldm ncol M mo rhs ro)[ro + j]! = rhs[ro + i]!) ∧
+    (∀ p, (p < ro ∨ ro + ncol ≤ p) → (usolve ldm ncol M mo rhs ro)[p]! = rhs[p]!) := by
+  have hz : ∀ i, i < ncol →
+      (bwdSub (fun i j => M[mo + (i + j * ldm)]!) (fun i => M[mo + (i + i * ldm)]!) (fun i => rhs[ro + i]!) ncol ncol).getD i 0 =
+      (rhs[ro + i]! - ∑ j ∈ Ico (i + 1) ncol,
+        (bwdSub (fun i j => M[mo + (i + j * ldm)]!) (fun i => M[mo + (i + i * ldm)]!) (fun i => rhs[ro + i]!) ncol ncol).getD j 0 *
+          M[mo + (i + j * ldm)]!) / M[mo + (i + i * ldm)]! := by
+    intro i hi
+    rw [bwd_rec _ _ _ ncol i hi]
+    congr 2
+    exact Finset.sum_congr rfl (fun j _ => mul_comm _ _)
+  obtain ⟨h1, h2, h3⟩ := usolve_spec' ldm ncol M mo rhs ro hb _ hz
+  refine ⟨h1, h2, fun i hi => ?_, h3⟩
+  have hrow := bwdSub_row (fun i j => M[mo + (i + j * ldm)]!) (fun i => M[mo + (i + i * ldm)]!) (fun i => rhs[ro + i]!) ncol i hi (hd i hi)
+  rw [Finset.sum_eq_sum_Ico_succ_bot (by omega), h2 i hi,
+    Finset.sum_congr rfl (fun j hj => by rw [h2 j (by have := mem_Ico.mp hj; omega)])]
+  exact hrow
+
+/-- **C01 (own BLAS: `matvec`).** `Mxvec_out[k] = Mxvec_in[k] + Σ_j M(k,j)·vec[j]` for every `nrow`,
+`ncol`, `ldm`; the cells of `Mxvec` from `nrow` on are unchanged. -/
+theorem matvec_spec (cplx : Bool) (ldm nrow ncol : Nat) (M : Array K) (mo : Nat) (vec : Array K) (vo : Nat) (y : Array K)
+    (hb : nrow ≤ y.size) :
+    (matvec cplx ldm nrow ncol M mo vec vo y).size = y.size ∧
+    (∀ k, k < nrow → (matvec cplx ldm nrow ncol M mo vec vo y)[k]! =
+      y[k]! + ∑ j ∈ range ncol, M[mo + (j * ldm + k)]! * vec[vo + j]!) ∧
+    (∀ p, nrow ≤ p → (matvec cplx ldm nrow ncol M mo vec vo y)[p]! = y[p]!) := by
+  obtain ⟨h1, h2, h3⟩ := matvec_spec' cplx ldm nrow ncol M mo vec vo y hb
+  refine ⟨h1, fun k hk => ?_, h3⟩
+  rw [h2 k hk]
+  congr 1
+  exact Finset.sum_congr rfl (fun j _ => mul_comm _ _)
+
+/-! `ncol = 11` (one block of 8, then 2, then the last column resp. 4 + 4 + 2 + last column for the
+complex scheme; `matvec`: 8 + 1 + 1 + 1 resp. 4 + 4 + 1 + 1 + 1), `nrow = 5`, `ldm = 13`. -/
+def exM : Array Rat := (Array.range 143).map fun k => ((((k * 7 + 3) % 5 : Nat) : Int) - 2 : Int)
+def exU : Array Rat := (Array.range 143).map fun k => if k % 14 = 0 then 1 else ((((k * 7 + 3) % 5 : Nat) : Int) - 2 : Int)
+def exRhs : Array Rat := (Array.range 11).map fun k => (((k * 3 + 1) % 7 : Nat) : Int)
+def exY : Array Rat := (Array.range 5).map fun k => ((k : Nat) : Int)
+
+example : lsolve false 13 11 exM 0 exRhs 0 = #[1, 6, -6, 7, -1, -16, -24, 44, 37, -143, 174] := by decide +kernel
+example : lsolve true 13 11 exM 0 exRhs 0 = #[1, 6, -6, 7, -1, -16, -24, 44, 37, -143, 174] := by decide +kernel
+example : matvec false 13 5 11 exM 0 exRhs 0 exY = #[15, -1, -7, 2, 1] := by decide +kernel
+example : matvec true 13 5 11 exM 0 exRhs 0 exY = #[15, -1, -7, 2, 1] := by decide +kernel
+example : usolve 13 11 exU 0 exRhs 0 = #[698, -134, 170, 91, -7, -38, 10, -6, -5, 3, 3] := by decide +kernel
+example := lsolve_spec false 13 11 exM 0 exRhs 0 (by simp [exRhs])
+example := matvec_spec true 13 5 11 exM 0 exRhs 0 exY (by simp [exY])
+example : ∀ i, i < 11 → exU[0 + (i + i * 13)]! ≠ 0 := by decide +kernel
+
+/-- **C01 (own BLAS: `snode_bmod`).** One relaxed supernode `fsupc..jcol` with row subscripts
+`lsub[istart .. istart+nsupr-1]` (distinct, inside `dense`), its finished columns `fsupc..jcol-1`
+stored with leading dimension `nsupr` from `luptr` on, before the cells `ufirst .. ufirst+nsupr-1` of
+column `jcol`; `tempv` zero on `0..nrow-1`.  After the call, with `u = fwdSub` of the unit lower
+diagonal block applied to the gathered `dense`:
+(i) the first `nsupc` cells of column `jcol` hold `u` (the U-segment); (ii) the cells below hold
+`dense[row i] − Σ_r L(i,r)·u_r`; nothing else in `lusup` changed; `dense` is zero on the rows of the
+supernode and unchanged elsewhere; `tempv` is as before (zero again); `xlusup[jcol+1]` is set.
+Holds for `jcol = fsupc` too (no update, plain copy). -/
+theorem snodeBmod_spec (cplx : Bool) (jcol fsupc : Nat) (lsub xlsub : Array Nat) (st : SnodeSt K)
+    (istart nsupr ufirst luptr nsupc : Nat)
+    (e1 : istart = xlsub[fsupc]!) (e2 : nsupr = xlsub[fsupc + 1]! - istart)
+    (e3 : ufirst = st.xlusup[jcol]!) (e4 : luptr = st.xlusup[fsupc]!) (e5 : nsupc = jcol - fsupc)
+    (hle : fsupc ≤ jcol)
+    (hinj : ∀ t u, t < nsupr → u < nsupr → lsub[istart + t]! = lsub[istart + u]! → t = u)
+    (hrow : ∀ t, t < nsupr → lsub[istart + t]! < st.dense.size)
+    (hcol : ufirst + nsupr ≤ st.lusup.size) (hwid : nsupc ≤ nsupr)
+    (hbefore : luptr + nsupc * nsupr ≤ ufirst)
+    (htv : nsupr - nsupc ≤ st.tempv.size) (htz : ∀ i, i < nsupr - nsupc → st.tempv[i]! = 0) :
+    let u := fwdSub (fun i r => st.lusup[luptr + (r * nsupr + i)]!) (fun _ => 1) (fun t => st.dense[lsub[istart + t]!]!) nsupc
+    let o := snodeBmod cplx jcol fsupc lsub xlsub st
+    o.lusup.size = st.lusup.size ∧
+    (∀ t, t < nsupc → o.lusup[ufirst + t]! = u.getD t 0) ∧
+    (∀ i, nsupc ≤ i → i < nsupr → o.lusup[ufirst + i]! =
+      st.dense[lsub[istart + i]!]! - ∑ r ∈ range nsupc, st.lusup[luptr + (r * nsupr + i)]! * u.getD r 0) ∧
+    (∀ p, (p < ufirst ∨ ufirst + nsupr ≤ p) → o.lusup[p]! = st.lusup[p]!) ∧
+    o.dense.size = st.dense.size ∧
+    (∀ t, t < nsupr → o.dense[lsub[istart + t]!]! = 0) ∧
+    (∀ r, (∀ t, t < nsupr → lsub[istart + t]! ≠ r) → o.dense[r]! = st.dense[r]!) ∧
+    o.tempv.size = st.tempv.size ∧ (∀ i : Nat, o.tempv[i]! = st.tempv[i]!) ∧
+    o.xlusup = st.xlusup.setIfInBounds (jcol + 1) (ufirst + nsupr) := by
+  intro u o
+  apply snodeBmod_spec' cplx jcol fsupc lsub xlsub st istart nsupr ufirst luptr nsupc e1 e2 e3 e4 e5 hle hinj hrow hcol hwid
+    hbefore htv htz (fun t => u.getD t 0)
+  intro i hi
+  rw [fwd_rec _ _ _ nsupc i hi, div_one]
+  congr 1
+  exact Finset.sum_congr rfl (fun j _ => mul_comm _ _)
+
+/-! A supernode with `nsupc = 11` finished columns (8 + 2 + 1), `nrow = 5` rows below the diagonal
+block: `fsupc = 2`, `jcol = 13`, `nsupr = 16`, subscripts start at 1, values at 3. -/
+def exLsub : Array Nat := #[9, 3, 7, 0, 12, 5, 14, 1, 16, 10, 8, 2, 15, 4, 11, 6, 13]
+def exXlsub : Array Nat := #[0, 1, 1, 17]
+def exXlusup : Array Nat := (Array.range 15).map fun c => if c < 2 then 0 else if c = 14 then 0 else 3 + (c - 2) * 16
+def exLusup : Array Rat := (Array.range (3 + 12 * 16)).map fun k => ((((k * 5 + 1) % 3 : Nat) : Int) - 1 : Int)
+def exDense : Array Rat := (Array.range 18).map fun k => ((((k * 3 + 2) % 5 : Nat) : Int) - 2 : Int)
+def exSt : SnodeSt Rat := { lusup := exLusup, xlusup := exXlusup, dense := exDense, tempv := Array.replicate 6 0 }
+
+example : (snodeBmod false 13 2 exLsub exXlsub exSt).lusup.extract 179 195 =
+    #[-1, 0, 1, 0, -1, 4, -8, -10, 14, -31, -28, 59, -56, -3, 57, -59] := by decide +kernel
+example : (snodeBmod true 13 2 exLsub exXlsub exSt).lusup.extract 179 195 =
+    #[-1, 0, 1, 0, -1, 4, -8, -10, 14, -31, -28, 59, -56, -3, 57, -59] := by decide +kernel
+example : (snodeBmod false 13 2 exLsub exXlsub exSt).dense = #[0, 0, 0, 0, 0, 0, 0, 0, 0, 2, 0, 0, 0, 0, 0, 0, 0, 1] := by
+  decide +kernel
+theorem exLsub_distinct : ∀ t, t < 16 → ∀ u, u < 16 → exLsub[1 + t]! = exLsub[1 + u]! → t = u := by decide +kernel
+example := snodeBmod_spec false 13 2 exLsub exXlsub exSt 1 16 179 3 11 (by decide +kernel) (by decide +kernel)
+  (by decide +kernel) (by decide +kernel) (by decide) (by decide) (fun t u ht hu => exLsub_distinct t ht u hu) (by decide +kernel) (by decide +kernel)
+  (by decide) (by decide) (by decide +kernel) (by decide +kernel)
+
+/-- **C01/C02 (the mirrored kernels instantiate the "dense solve + gemv" step of the supernodal
+schedule theorem).**  `cols` are the finished columns `fsupc..jcol-1` as the factorization model
+holds them (`(pivot row, column of L)`, e.g. a block of `prev st j` in `luFactor_supernodal_schedule`),
+agreeing with the storage on the rows of the supernode (zero above the pivot, one at the pivot, the
+stored multipliers below).  Then what `snode_bmod` — mirrored `lsolve` + `matvec` + scatter — leaves
+in column `jcol` is exactly the abstract block update `Slu.LU.snodeBlock cols dense`
+(= `elimBlocks [cols] dense` = the column-by-column elimination `elim cols dense`): its U-segment in
+the diagonal-block cells, its remaining vector at the rows below. -/
+theorem snodeBmod_is_supernodal_step (cplx : Bool) (jcol fsupc : Nat) (lsub xlsub : Array Nat) (st : SnodeSt K)
+    (istart nsupr ufirst luptr nsupc : Nat)
+    (e1 : istart = xlsub[fsupc]!) (e2 : nsupr = xlsub[fsupc + 1]! - istart)
+    (e3 : ufirst = st.xlusup[jcol]!) (e4 : luptr = st.xlusup[fsupc]!) (e5 : nsupc = jcol - fsupc)
+    (hle : fsupc ≤ jcol)
+    (hinj : ∀ t u, t < nsupr → u < nsupr → lsub[istart + t]! = lsub[istart + u]! → t = u)
+    (hrow : ∀ t, t < nsupr → lsub[istart + t]! < st.dense.size)
+    (hcol : ufirst + nsupr ≤ st.lusup.size) (hwid : nsupc ≤ nsupr)
+    (hbefore : luptr + nsupc * nsupr ≤ ufirst)
+    (htv : nsupr - nsupc ≤ st.tempv.size) (htz : ∀ i, i < nsupr - nsupc → st.tempv[i]! = 0)
+    (cols : List (Nat × LU.Vec K)) (hlen : cols.length = nsupc)
+    (R1 : ∀ t (ht : t < cols.length), (cols[t]).1 = lsub[istart + t]!)
+    (R2 : ∀ t (ht : t < cols.length) i, i < nsupr → (cols[t]).2.get (lsub[istart + i]!) =
+        if i < t then 0 else if i = t then 1 else st.lusup[luptr + (t * nsupr + i)]!) :
+    LU.snodeBlock cols st.dense = LU.elim cols st.dense ∧
+    LU.elimBlocks [cols] st.dense = LU.elim cols st.dense ∧
+    (∀ t, t < nsupc → (snodeBmod cplx jcol fsupc lsub xlsub st).lusup[ufirst + t]! = (LU.snodeBlock cols st.dense).2.getD t 0) ∧
+    (∀ i, nsupc ≤ i → i < nsupr → (snodeBmod cplx jcol fsupc lsub xlsub st).lusup[ufirst + i]! =
+      (LU.snodeBlock cols st.dense).1.get (lsub[istart + i]!)) := by
+  obtain ⟨hU, hr, c1, c2⟩ := snodeBmod_eq_snodeBlock' cplx jcol fsupc lsub xlsub st istart nsupr ufirst luptr nsupc
+    e1 e2 e3 e4 e5 hle hinj hrow hcol hwid hbefore htv htz cols hlen R1 R2
+  have hb := LU.snodeBlock_eq_elim cols st.dense hU hr
+  have hs := LU.snodeSolve_eq_elim cols st.dense hr
+  refine ⟨hb, ?_, fun t ht => ?_, fun i hi hin => ?_⟩
+  · have := LU.elimBlocks_eq_elim [cols] st.dense (fun b hb' => by simp at hb'; subst hb'; exact hU)
+      (fun b hb' x hx => by simp at hb'; subst hb'; exact hr x hx)
+    simpa using this
+  · rw [c1 t ht, hb, hs]
+  · rw [c2 i hi hin, hb, hs, LU.snodeGemv_eq_elim]
+
+/-! ### The triangular solves of `gstrs` run the mirrored kernels
+
+`Slu.Kernels.trsvLN` / `trsvUN` (Slu/Model/Kernels.lean) are the specification-level model of the two
+NOTRANS solves of `sp_[sdcz]trsv` / `[sdcz]gstrs`, proved equal to the dense reference on well-formed
+storage (Props/C14 `spTrsv_eq_ref`; C01 `gssv_solves` composes them).  `trsvLNblas` / `trsvUNblas`
+(Lemmas/MyBlas2.lean) run the SAME supernode loop with the diagonal-block solve and the update
+performed by the bit-mirrored `lsolve` + `matvec` into a zero `work[]` + scatter, resp. `usolve` —
+the statements of SRC/dsp_blas2.c:174-186, 200-226 in a non-vendor build.  In exact arithmetic they
+coincide, for every storage, every unrolling scheme. -/
+
+/-- **C01 (forward solve = mirrored `lsolve` + `matvec` per supernode).** -/
+theorem trsvLN_eq_mirrored [Conj K] (cplx : Bool) (F : LUFac K) (x : Array K)
+    (hb : ∀ k, k ≤ F.L.nsuper → (snode F.L k).fsupc + (snode F.L k).nsupc ≤ x.size) :
+    trsvLN F x = trsvLNblas cplx F x := (trsvLNblas_eq_trsvLN cplx F x hb).symm
+
+/-- **C01 (back solve = mirrored `usolve` per supernode).** -/
+theorem trsvUN_eq_mirrored [Conj K] (F : LUFac K) (x : Array K) : trsvUN F false x = trsvUNblas F x :=
+  (trsvUNblas_eq_trsvUN F x).symm
+
+/-- **C01 (the two solves of `gstrs`, NOTRANS).** `gstrsCol F permc permr Tr.N b` is by definition
+`gather permc (spTrsv F .U .N false (spTrsv F .L .N true (scatter permr b)))`; the inner composition
+is the mirrored kernels' one. -/
+theorem spTrsv_notrans_eq_mirrored [Conj K] (cplx : Bool) (F : LUFac K) (x : Array K) (hn : (F.L.n == 0) = false)
+    (hb : ∀ k, k ≤ F.L.nsuper → (snode F.L k).fsupc + (snode F.L k).nsupc ≤ x.size) :
+    spTrsv F .U .N false (spTrsv F .L .N true x) = trsvUNblas F (trsvLNblas cplx F x) := by
+  unfold spTrsv
+  simp only [hn]
+  rw [trsvLNblas_eq_trsvLN cplx F x hb, trsvUNblas_eq_trsvUN]
+  rfl
+
+/-! Hypotheses are satisfiable: the model's columns for the example supernode (`exLsub`, `exLusup`:
+`nsupc = 11`, `nrow = 5`), and a 16 x 16 factor whose first supernode has 11 columns and 16 rows. -/
+def exCols : List (Nat × LU.Vec Rat) := (List.range 11).map fun t =>
+  (exLsub[1 + t]!, (Array.range 18).map fun r =>
+    match (List.range 16).find? (fun i => exLsub[1 + i]! == r) with
+    | some i => if i < t then 0 else if i = t then 1 else exLusup[3 + (t * 16 + i)]!
+    | none => 0)
+
+theorem exCols_R1 : ∀ t (ht : t < exCols.length), (exCols[t]).1 = exLsub[1 + t]! := by decide +kernel
+theorem exCols_R2 : ∀ t (ht : t < exCols.length) i, i < 16 → (exCols[t]).2.get (exLsub[1 + i]!) =
+    if i < t then 0 else if i = t then 1 else exSt.lusup[3 + (t * 16 + i)]! := by decide +kernel
+example := snodeBmod_is_supernodal_step false 13 2 exLsub exXlsub exSt 1 16 179 3 11 (by decide +kernel) (by decide +kernel)
+  (by decide +kernel) (by decide +kernel) (by decide) (by decide) (fun t u ht hu => exLsub_distinct t ht u hu) (by decide +kernel) (by decide +kernel)
+  (by decide) (by decide) (by decide +kernel) (by decide +kernel) exCols (by decide +kernel) exCols_R1 exCols_R2
+
+def exF : LUFac Rat :=
+  { L := { m := 16, n := 16, nsuper := 5, xsup := #[0, 11, 12, 13, 14, 15, 16],
+           supno := #[0, 0, 0, 0, 0, 0, 0, 0, 0, 0, 0, 1, 2, 3, 4, 5],
+           xlsub := #[0, 16, 16, 16, 16, 16, 16, 16, 16, 16, 16, 16, 17, 18, 19, 20, 21],
+           lsub := #[0, 1, 2, 3, 4, 5, 6, 7, 8, 9, 10, 11, 12, 13, 14, 15, 11, 12, 13, 14, 15],
+           xlusup := #[0, 16, 32, 48, 64, 80, 96, 112, 128, 144, 160, 176, 177, 178, 179, 180, 181],
+           lusup := (Array.range 181).map fun k => if k % 17 = 0 ∨ k ≥ 176 then 1 else ((((k * 5 + 1) % 3 : Nat) : Int) - 1 : Int) },
+    U := { m := 16, n := 16, colptr := Array.replicate 17 0, rowind := #[], val := #[] }, nnzL := 181, nnzU := 0 }
+def exB : Array Rat := (Array.range 16).map fun k => ((((k * 3 + 2) % 5 : Nat) : Int) - 2 : Int)
+
+theorem exF_blocks : ∀ k, k ≤ exF.L.nsuper → (snode exF.L k).fsupc + (snode exF.L k).nsupc ≤ exB.size := by decide +kernel
+example : trsvLNblas false exF exB = trsvLN exF exB := by decide +kernel
+example : trsvLNblas true exF exB = trsvLN exF exB := by decide +kernel
+example : trsvUNblas exF (trsvLN exF exB) = trsvUN exF false (trsvLN exF exB) := by decide +kernel
+example : trsvLN exF exB ≠ exB := by decide +kernel
+example := spTrsv_notrans_eq_mirrored false exF exB (by decide +kernel) exF_blocks
+
+end Slu.MyBlas2
